@@ -43,48 +43,56 @@ theorem outs_sound {sk t o} (h : Run sk t o) : o ∈ outs sk := by
   | tryUncaught _ ih =>
     simp only [outs, List.mem_append]; right; rw [if_pos (contains_of_mem ih)]; exact List.mem_cons_self
 
-theorem cancelOuts_sound {sk o} (h : Cancelled sk o) : o ∈ cancelOuts sk := by
+theorem thrownOuts_sound {catches : String → Bool} {point : Ev → Bool} {sk o} (h : Thrown catches point sk o) : o ∈ thrownOuts catches point sk := by
   induction h with
-  | aw n => simp [cancelOuts]
-  | seqL _ hne ih =>
-    simp only [cancelOuts, List.mem_append]; left; left; exact mem_filter_ne ih hne
-  | seqLgo _ hb ih =>
-    simp only [cancelOuts, List.mem_append]; left; right; rw [if_pos (contains_of_mem ih)]; exact outs_sound hb
+  | «at» e hp => simp [thrownOuts, hp]
+  | seqL _ ih =>
+    simp only [thrownOuts, List.mem_append]; left; exact ih
   | seqR ha _ ih =>
-    simp only [cancelOuts, List.mem_append]; right; rw [if_pos (contains_of_mem (outs_sound ha))]; exact ih
-  | altL _ ih => simp only [cancelOuts, List.mem_append]; left; exact ih
-  | altR _ ih => simp only [cancelOuts, List.mem_append]; right; exact ih
-  | loopNow _ ih => simp only [cancelOuts]; exact List.mem_map_of_mem ih
+    simp only [thrownOuts, List.mem_append]; right; rw [if_pos (contains_of_mem (outs_sound ha))]; exact ih
+  | altL _ ih => simp only [thrownOuts, List.mem_append]; left; exact ih
+  | altR _ ih => simp only [thrownOuts, List.mem_append]; right; exact ih
+  | loopNow _ ih => simp only [thrownOuts]; exact List.mem_map_of_mem ih
   | loopLater _ _ _ ih2 => exact ih2
   | finBody _ hf ih =>
-    simp only [cancelOuts, List.mem_append]; left; left; rw [if_pos (contains_of_mem (outs_sound hf))]; exact ih
+    simp only [thrownOuts, List.mem_append]; left; left; rw [if_pos (contains_of_mem (outs_sound hf))]; exact ih
   | @finBodyStop body f t o o' _ hf hne ih =>
-    simp only [cancelOuts, List.mem_append]; left; right
-    have hne' : (cancelOuts body).isEmpty = false := by
-      cases hc : cancelOuts body with
+    simp only [thrownOuts, List.mem_append]; left; right
+    have hne' : (thrownOuts catches point body).isEmpty = false := by
+      cases hc : thrownOuts catches point body with
       | nil => rw [hc] at ih; cases ih
       | cons _ _ => rfl
     rw [hne']; exact mem_filter_ne (outs_sound hf) hne
   | @finIn body f t o o' hb _ ih =>
-    simp only [cancelOuts, List.mem_append]; right
+    simp only [thrownOuts, List.mem_append]; right
     by_cases ho : o' = .fall
     · subst ho; simp only [if_true]; right; rw [if_pos (contains_of_mem ih)]; exact outs_sound hb
     · rw [if_neg ho]; left; exact mem_filter_ne ih ho
   | tryPass _ hne ih =>
-    simp only [cancelOuts, List.mem_append]; left; left; exact mem_filter_ne ih hne
+    simp only [thrownOuts, List.mem_append]; left; left; exact mem_filter_ne ih hne
   | tryCaught _ hfh hr ih =>
-    simp only [cancelOuts, List.mem_append]; left; right
+    simp only [thrownOuts, List.mem_append]; left; right
     rw [if_pos (contains_of_mem ih), hfh]; exact outs_sound hr
   | tryThrough _ hfh ih =>
-    simp only [cancelOuts, List.mem_append]; left; right
+    simp only [thrownOuts, List.mem_append]; left; right
     rw [if_pos (contains_of_mem ih), hfh]; simp
   | tryInHandler hb _ ih =>
-    simp only [cancelOuts, List.mem_append]; right; rw [if_pos (contains_of_mem (outs_sound hb))]; exact ih
+    simp only [thrownOuts, List.mem_append]; right; rw [if_pos (contains_of_mem (outs_sound hb))]; exact ih
+
+theorem cancelOuts_sound {sk o} (h : Cancelled sk o) : o ∈ cancelOuts sk := thrownOuts_sound h
 
 /-- if the analysis says so, EVERY cancellation of the skeleton - at whichever await, after whatever prefix - propagates -/
 theorem cancel_propagates {sk o} (hs : neverSwallowsCancel sk = true) (h : Cancelled sk o) : o = .exc := by
   have := cancelOuts_sound h
   simp only [neverSwallowsCancel, List.all_eq_true] at hs
+  simpa using hs o this
+
+/-- if the analysis says so, an ordinary exception raised at any of the awaits in `point` - after whatever prefix - never
+propagates out of the skeleton -/
+theorem exception_is_contained {point : Ev → Bool} {sk o} (hs : survivesEveryException point sk = true)
+    (h : Thrown catchesAny point sk o) : o ≠ .exc := by
+  have := thrownOuts_sound h
+  simp only [survivesEveryException, List.all_eq_true] at hs
   simpa using hs o this
 
 end GeckoModel.Coop
